@@ -191,6 +191,9 @@ func (e *engine) explore(r root, prefix []string) {
 	}
 }
 
+// isXport: the request failed in transport, before or after the device acted.
+func isXport(o string) bool { return o == oXport || o == oXportLate || o == oXportErr }
+
 func canon(s string) string { return strings.ReplaceAll(s, " ", "_") }
 
 func scriptString(steps []stepRec) string {
@@ -260,6 +263,9 @@ func (e *engine) run(r root, prefix []string) witness {
 		if s.Scripted {
 			c.Count("outcome_"+s.Outcome, 1)
 		}
+		if (s.Outcome == oXportLate || s.Outcome == oXportErr) && s.DevBefore != s.DevAfter {
+			c.Count("reply_lost_after_device_moved", 1)
+		}
 		last = s
 	}
 	if hasBogus {
@@ -289,7 +295,7 @@ func (e *engine) run(r root, prefix []string) witness {
 
 	// REPORT: reported state is the image of the device's real state
 	img, has := image(r.Mode, d)
-	lastXport := last != nil && last.Outcome == oXport
+	lastXport := last != nil && isXport(last.Outcome)
 	okReport := (has && reported == img) || (reported == "" && (!has || lastXport))
 	if !okReport {
 		c.Violation("REPORT", head+"->reported-"+orEmpty(reported)+"-device-"+canon(d),
